@@ -11,6 +11,7 @@ mod eg;
 mod egx;
 mod egs;
 mod eg9;
+mod eg20;
 
 fn main() {
     common::install_panic_hook();
@@ -30,6 +31,7 @@ fn main() {
         "egx" => egx::main(&a),
         "egs" => egs::main(&a),
         "eg9" => eg9::main(&a),
+        "eg20" => eg20::main(&a),
         "features" => {
             println!("checks={} explanations={}", cfg!(feature = "checks"), cfg!(feature = "explanations"));
         }
